@@ -8,7 +8,12 @@ Op vocabulary (all take `o=<slot>` 0..3, default 0):
   mk_filter to=k | mk_copy_shallow to=k | mk_copy_deep to=k
   it_new it_next it_remove it_add v it_replace v it_index
   zit_new o=a o2=b | zit_next | zit_add v w | zit_remove | zit_replace v w | zit_index
-  `noout=1` passes NULL for the out parameter(s).
+  `noout=1` passes NULL for the out parameter(s).  Constructor lines take `obs=sparse` (content sweep only on
+  `observe`) and `phys=quiet` (buffer checksum `buf=#n` instead of the slot dump, full dump on `observe`).
+
+Cursor sessions (focus iter / reject / all) are simulated with the library's own cursor state (index + flag), so
+they can be interleaved with direct calls on the walked object, start with a mutator before the first next, and
+stand behind the end.  `scale(rng, tier)` returns a few long histories (ROUND12 A), run by every check.
 
 focus=None emits only the operations C05 names (both ends, indices, values, reverse, filter_mut, trim and
 the read-only observers); the other focus values add iterators / builders / boundary arguments / growth /
@@ -29,10 +34,17 @@ def d3_excluded(index, size):
     return 1 <= index and index + 1 <= size // 2
 
 
-def d3_risky_under_fault(index, size):
-    """the runner turns any allocating op of a `fault` history into a refused one, after which the real
-    size (and an iterator position) can be one smaller than simulated: stay well clear of the D3 range"""
-    return not (index == 0 or index > size // 2 + 1 or index >= size)
+def d3_under_refusal(index, size):
+    """Cursor insertions (it_add / zit_add) in histories meant for the runner's refusal enumeration (`fault`).
+    The runner refuses ONE allocator call of the history, so one growing operation of the simulated history had
+    no effect on the real object: its real size is then up to 1 smaller than simulated (2: an aliased zit_add
+    inserts two elements) and a cursor is up to as many positions behind (a refused it_add does not advance;
+    a shorter deque ends the walk earlier).  The real call is add_at(index - a) on size - b elements for some
+    0 <= a <= b <= 2, and it is finding D3 exactly when d3_excluded(index - a, size - b): precisely those
+    positions are kept out, nothing wider.  (Direct add_at calls need no such margin: the real size is never
+    larger than the simulated one and d3_excluded(i, n') implies d3_excluded(i, n) for n' <= n.)"""
+    return any(d3_excluded(index - a, size - b) for b in range(3) for a in range(b + 1)
+               if index - a >= 0 and size - b >= 0)
 
 
 def upper_pow_two(n):
@@ -100,6 +112,8 @@ CORE_OPS = ["add_last", "add_first", "add_at", "replace_at", "remove", "remove_a
             "remove_last", "remove_all", "get_at", "get_first", "get_last", "reverse", "filter_mut",
             "trim", "contains", "contains_value", "index_of", "size", "foreach", "add"]
 CORE_W = [14, 12, 12, 5, 4, 9, 6, 6, 1, 5, 2, 2, 3, 2, 3, 2, 2, 2, 1, 1, 3]
+MIXED_OPS = ["remove_last", "remove_first", "remove_at", "remove_all", "add_last", "add_first", "add_at", "trim", "filter_mut"]
+MIXED_W = [6, 5, 4, 1, 4, 4, 2, 1, 1]
 REJECT_IDX = lambda n: [max(n, 1) - 1, n, n + 1, 2**31, 2**63, SIZE_MAX - 1, SIZE_MAX]
 
 
@@ -167,7 +181,7 @@ class DequeGen:
                 if i < n and d3_excluded(i, n):
                     i = n
             else:
-                cand = [i for i in range(n) if not (d3_risky_under_fault(i, n) if fault else d3_excluded(i, n))]
+                cand = [i for i in range(n) if not d3_excluded(i, n)]     # also under `fault`: see d3_under_refusal
                 if not cand:
                     return self.core_op(rng, sim, ops, slot, reject, fault, "add_last", allow_fail)
                 i = rng.choice(cand)
@@ -229,181 +243,267 @@ class DequeGen:
             ops.append(f"{op}{sfx}")
 
     # ------------------------------------------------------------------ iterator programs
-    def iter_program(self, rng, sim, ops, slot=0, fault=False, reject=False, allow_fail=False):
-        """it_new; then next / one mutation per yielded element / index, until the end"""
+    def direct_ops(self, rng, sim, ops, slot, reject, fault, allow_fail):
+        """1-3 direct container calls on the object an iterator session is walking (ROUND12 C): the cursor is just
+        an index, so shortening / lengthening the deque behind its back is legal input"""
+        for _ in range(rng.choice([1, 1, 2, 3])):
+            self.core_op(rng, sim, ops, slot=slot, reject=reject, fault=fault, allow_fail=allow_fail,
+                         only=rng.choices(MIXED_OPS, MIXED_W)[0])
+
+    def iter_program(self, rng, sim, ops, slot=0, fault=False, reject=False, allow_fail=False, mixed=False):
+        """it_new; then next / mutations / index until the end.  The simulation keeps the cursor the way the library
+        does (index + last_removed flag), so every call is predictable wherever the cursor stands: behind the end
+        after direct removals (`mixed`), before the first next, twice on the same element."""
         sfx = f" o={slot}" if slot else ""
+        ex = d3_under_refusal if fault else d3_excluded
         ops.append(f"it_new{sfx}")
-        pos = 0
+        pos, removed = 0, False
+        n = lambda: len(sim.items)
+
+        def do_remove():
+            nonlocal pos, removed
+            if not removed and 1 <= pos <= n():
+                del sim.items[pos - 1]
+                pos -= 1
+                removed = True
+            ops.append("it_remove" + (" noout=1" if rng.random() < 0.2 else ""))
+
+        def do_replace():
+            v = pick_value(rng)
+            if 1 <= pos <= n():
+                sim.items[pos - 1] = v
+            ops.append(f"it_replace {v}" + (" noout=1" if rng.random() < 0.2 else ""))
+
+        def do_add():
+            nonlocal pos
+            if pos < n() and ex(pos, n()):
+                return False                      # KNOWN FINDING D3 (add_at front half): kept out
+            v = pick_value(rng)
+            fl = ""
+            if pos <= n():                        # pos == size: add_last; pos < size: add_at; pos > size: rejected
+                refused = False
+                if allow_fail and rng.random() < 0.3:
+                    fl, refused = " fail=1", sim.grows()
+                if not refused:
+                    if sim.grows():
+                        sim.grow()
+                    sim.items.insert(pos, v)
+                    pos += 1
+            ops.append(f"it_add {v}{fl}")
+            return True
+
         if reject and rng.random() < 0.5:      # mutators before the first next are rejected and inert
-            ops.append(rng.choice(["it_remove", f"it_replace {pick_value(rng)}"]))
+            rng.choice([do_remove, do_replace])()
+        if rng.random() < 0.12:                # … but it_add before the first next inserts at the front
+            do_add()
         p_mut = rng.choice([0.0, 0.3, 0.6, 1.0])
         kinds = rng.choice([["remove"], ["add"], ["replace"], ["remove", "add", "replace"]])
         steps = 0
         while steps < 80:
             steps += 1
+            if mixed and rng.random() < 0.2:
+                self.direct_ops(rng, sim, ops, slot, reject, fault, allow_fail)
             ops.append("it_next")
-            if pos >= len(sim.items):
+            if pos >= n():
                 if rng.random() < 0.3:
-                    ops.append("it_next")       # END is sticky
-                if rng.random() < 0.3 and not fault:   # adding behind the end is add_last
-                    v = pick_value(rng)
-                    fl = ""
-                    refused = False
-                    if allow_fail and rng.random() < 0.3:
-                        fl, refused = " fail=1", sim.grows()
-                    if not refused:
-                        if sim.grows():
-                            sim.grow()
-                        sim.items.insert(pos, v)
-                        pos += 1
-                    ops.append(f"it_add {v}{fl}")
+                    ops.append("it_next")       # END again
+                if pos > n():                   # the deque was shortened behind the cursor: everything is rejected
+                    for f in rng.sample([do_add, do_remove, do_replace], rng.randint(1, 3)):
+                        f()
+                    if rng.random() < 0.3:
+                        ops.append("it_index")
+                elif rng.random() < 0.3:        # adding behind the end is add_last
+                    do_add()
                     ops.append("it_next")
+                if mixed and rng.random() < 0.5:
+                    continue                    # END is not sticky: after direct additions the walk goes on
                 break
             pos += 1
+            removed = False
             if rng.random() < 0.3:
                 ops.append("it_index")
             if rng.random() < p_mut:
                 k = rng.choice(kinds)
-                n = len(sim.items)
                 if k == "remove":
-                    del sim.items[pos - 1]
-                    pos -= 1
-                    ops.append("it_remove" + (" noout=1" if rng.random() < 0.2 else ""))
+                    do_remove()
                     if reject and rng.random() < 0.3:
-                        ops.append("it_remove")     # second removal of the same element is rejected
+                        do_remove()             # second removal of the same element is rejected
                 elif k == "add":
-                    bad = (d3_risky_under_fault(pos, n) if fault else d3_excluded(pos, n)) and pos != n
-                    if not bad:
-                        v = pick_value(rng)
-                        fl = ""
-                        refused = False
-                        if allow_fail and rng.random() < 0.3:
-                            fl, refused = " fail=1", sim.grows()
-                        if not refused:
-                            if sim.grows():
-                                sim.grow()
-                            sim.items.insert(pos, v)
-                            pos += 1
-                        ops.append(f"it_add {v}{fl}")
-                        if rng.random() < 0.3:
-                            ops.append("it_index")
+                    if do_add() and rng.random() < 0.3:
+                        ops.append("it_index")
                 else:
-                    v = pick_value(rng)
-                    sim.items[pos - 1] = v
-                    ops.append(f"it_replace {v}" + (" noout=1" if rng.random() < 0.2 else ""))
+                    do_replace()
             if rng.random() < 0.04:
                 break
 
-    def zip_program(self, rng, s1, s2, ops, a=0, b=1, fault=False, reject=False, allow_fail=False):
+    def zip_program(self, rng, s1, s2, ops, a=0, b=1, fault=False, reject=False, allow_fail=False, mixed=False):
+        ex = d3_under_refusal if fault else d3_excluded
         ops.append(f"zit_new o={a} o2={b}")
-        pos = 0
+        pos, removed = 0, False
+        m = lambda: min(len(s1.items), len(s2.items))
+
+        def do_remove():
+            nonlocal pos, removed
+            if not removed and 1 <= pos <= m():
+                del s1.items[pos - 1]
+                del s2.items[pos - 1]
+                pos -= 1
+                removed = True
+            ops.append("zit_remove" + (" noout=1" if rng.random() < 0.2 else ""))
+
+        def do_replace():
+            v, w = pick_value(rng), pick_value(rng)
+            if 1 <= pos <= m():
+                s1.items[pos - 1] = v
+                s2.items[pos - 1] = w
+            ops.append(f"zit_replace {v} {w}" + (" noout=1" if rng.random() < 0.2 else ""))
+
+        def do_add():
+            nonlocal pos
+            n1, n2 = len(s1.items), len(s2.items)
+            if pos < n1 and pos < n2 and (ex(pos, n1) or ex(pos, n2)):
+                return                              # KNOWN FINDING D3
+            v, w = pick_value(rng), pick_value(rng)
+            fl = ""
+            if pos < n1 and pos < n2:               # otherwise rejected: behind the end of the shorter one
+                refused = False
+                if allow_fail and rng.random() < 0.3:
+                    # the first allocator call of the op belongs to the first deque that grows
+                    fl, refused = " fail=1", (s1.grows() or s2.grows())
+                if not refused:                     # refused: abs of both unchanged, nothing grew
+                    for s, x in ((s1, v), (s2, w)):
+                        if s.grows():
+                            s.grow()
+                        s.items.insert(pos, x)
+                    pos += 1
+            ops.append(f"zit_add {v} {w}{fl}")
+
         if reject and rng.random() < 0.5:
-            ops.append(rng.choice(["zit_remove", f"zit_replace {pick_value(rng)} {pick_value(rng)}"]))
+            rng.choice([do_remove, do_replace])()
+        if rng.random() < 0.12:
+            do_add()                                # before the first next: pair insertion at the front
         p_mut = rng.choice([0.0, 0.3, 0.7])
         kinds = rng.choice([["remove"], ["add"], ["replace"], ["remove", "add", "replace"]])
         steps = 0
         while steps < 60:
             steps += 1
+            if mixed and rng.random() < 0.2:
+                k = rng.choice([0, 1])
+                self.direct_ops(rng, (s1, s2)[k], ops, (a, b)[k], reject, fault, allow_fail)
             ops.append("zit_next")
-            if pos >= min(len(s1.items), len(s2.items)):
+            if pos >= m():
                 if rng.random() < 0.3:
                     ops.append("zit_next")
-                if reject and rng.random() < 0.5:
-                    ops.append(f"zit_add {pick_value(rng)} {pick_value(rng)}")   # behind the shorter one: rejected
+                if reject and rng.random() < 0.5 or pos > m():
+                    for f in rng.sample([do_add, do_remove, do_replace], rng.randint(1, 3) if pos > m() else 1):
+                        f()                         # behind the shorter one: add always rejected
+                if mixed and rng.random() < 0.4:
+                    continue
                 break
             pos += 1
+            removed = False
             if rng.random() < 0.3:
                 ops.append("zit_index")
             if rng.random() < p_mut:
                 k = rng.choice(kinds)
-                n1, n2 = len(s1.items), len(s2.items)
                 if k == "remove":
-                    del s1.items[pos - 1]
-                    del s2.items[pos - 1]
-                    pos -= 1
-                    ops.append("zit_remove" + (" noout=1" if rng.random() < 0.2 else ""))
+                    do_remove()
                     if reject and rng.random() < 0.3:
-                        ops.append("zit_remove")
+                        do_remove()
                 elif k == "add":
-                    if pos < n1 and pos < n2:
-                        ex = d3_risky_under_fault if fault else d3_excluded
-                        if not ex(pos, n1) and not ex(pos, n2):
-                            v, w = pick_value(rng), pick_value(rng)
-                            fl = ""
-                            refused = False
-                            if allow_fail and rng.random() < 0.3:
-                                # the first allocator call of the op belongs to the first deque that grows
-                                fl, refused = " fail=1", (s1.grows() or s2.grows())
-                            if not refused:          # refused: abs of both unchanged, nothing grew
-                                for s, x in ((s1, v), (s2, w)):
-                                    if s.grows():
-                                        s.grow()
-                                    s.items.insert(pos, x)
-                                pos += 1
-                            ops.append(f"zit_add {v} {w}{fl}")
+                    do_add()
                 else:
-                    v, w = pick_value(rng), pick_value(rng)
-                    s1.items[pos - 1] = v
-                    s2.items[pos - 1] = w
-                    ops.append(f"zit_replace {v} {w}" + (" noout=1" if rng.random() < 0.2 else ""))
+                    do_replace()
             if rng.random() < 0.04:
                 break
 
-    def zip_self_program(self, rng, s, ops, slot=0, fault=False, reject=False, allow_fail=False):
+    def zip_self_program(self, rng, s, ops, slot=0, fault=False, reject=False, allow_fail=False, mixed=False):
         """zip iterator with the SAME deque on both sides (`zit_new o=k o2=k`): the library then works on
         one object through both pointers — add inserts two elements (…, w, v, …), remove takes the yielded
         element and its successor, replace leaves the second value.
         Since repair D13 a refused growth inside the second add_at is all-or-nothing as well
         (corpus/deque/regress_D13_zip_alias_add_refused.ops), so fail= / fault enumeration is allowed here."""
+        ex = d3_under_refusal if fault else d3_excluded
         ops.append(f"zit_new o={slot} o2={slot}")
-        pos = 0
+        pos, removed = 0, False
+        n = lambda: len(s.items)
+
+        def do_remove():
+            nonlocal pos, removed
+            if not removed and 1 <= pos <= n():
+                del s.items[pos - 1]
+                if pos - 1 < len(s.items):
+                    del s.items[pos - 1]
+                pos -= 1
+                removed = True
+            ops.append("zit_remove" + (" noout=1" if rng.random() < 0.2 else ""))
+
+        def do_replace():
+            v, w = pick_value(rng), pick_value(rng)
+            if 1 <= pos <= n():
+                s.items[pos - 1] = w
+            ops.append(f"zit_replace {v} {w}" + (" noout=1" if rng.random() < 0.2 else ""))
+
+        def do_add():
+            nonlocal pos
+            k = n()
+            if pos < k and (ex(pos, k) or ex(pos, k + 1)):
+                return                              # KNOWN FINDING D3 (either of the two add_at calls)
+            v, w = pick_value(rng), pick_value(rng)
+            fl = ""
+            if pos < k:
+                first_grows = s.grows()                                 # growth test of zip_iter_add itself
+                cap1 = s.cap * 2 if first_grows else s.cap
+                second_grows = (k + 1 == cap1)                          # the second add_at grows on its own
+                refused = False
+                if allow_fail and (first_grows or second_grows) and rng.random() < 0.4:
+                    if first_grows and second_grows and rng.random() < 0.5:
+                        fl, refused = " fail=2", True     # capacity 1: first growth granted and KEPT, second refused
+                        s.cap = cap1
+                    else:
+                        fl, refused = " fail=1", True     # first allocator call refused: all-or-nothing (D13)
+                if not refused:
+                    s.cap = cap1 * 2 if second_grows else cap1
+                    s.items.insert(pos, v)
+                    s.items.insert(pos, w)
+                    pos += 1
+            ops.append(f"zit_add {v} {w}{fl}")
+
         if reject and rng.random() < 0.5:
-            ops.append(rng.choice(["zit_remove", f"zit_replace {pick_value(rng)} {pick_value(rng)}"]))
+            rng.choice([do_remove, do_replace])()
+        if rng.random() < 0.2:
+            do_add()                                # before the first next: index 0
         p_mut = rng.choice([0.0, 0.4, 0.8])
         kinds = rng.choice([["remove"], ["add"], ["replace"], ["remove", "add", "replace"]])
         steps = 0
         while steps < 40:
             steps += 1
+            if mixed and rng.random() < 0.2:
+                self.direct_ops(rng, s, ops, slot, reject, fault, allow_fail)
             ops.append("zit_next")
-            if pos >= len(s.items):
+            if pos >= n():
                 if rng.random() < 0.3:
                     ops.append("zit_next")
-                if reject and rng.random() < 0.5:
-                    ops.append(f"zit_add {pick_value(rng)} {pick_value(rng)}")     # behind the end: rejected
+                if reject and rng.random() < 0.5 or pos > n():
+                    for f in rng.sample([do_add, do_remove, do_replace], rng.randint(1, 3) if pos > n() else 1):
+                        f()                         # behind the end: add always rejected
+                if mixed and rng.random() < 0.4:
+                    continue
                 break
             pos += 1
+            removed = False
             if rng.random() < 0.3:
                 ops.append("zit_index")
             if rng.random() < p_mut:
                 k = rng.choice(kinds)
-                n = len(s.items)
                 if k == "remove":
-                    del s.items[pos - 1]
-                    if pos - 1 < len(s.items):
-                        del s.items[pos - 1]
-                    pos -= 1
-                    ops.append("zit_remove" + (" noout=1" if rng.random() < 0.2 else ""))
+                    do_remove()
                     if reject and rng.random() < 0.3:
-                        ops.append("zit_remove")
+                        do_remove()
                 elif k == "add":
-                    ex = d3_risky_under_fault if fault else d3_excluded
-                    if pos < n and not ex(pos, n) and not ex(pos, n + 1):
-                        v, w = pick_value(rng), pick_value(rng)
-                        cap1 = s.cap * 2 if s.grows() else s.cap          # growth test of zip_iter_add itself
-                        second_grows = (n + 1 == cap1)                    # the second add_at grows on its own
-                        fl, refused = "", False
-                        if allow_fail and (s.grows() or second_grows) and rng.random() < 0.4:
-                            fl, refused = " fail=1", True     # first allocator call refused: all-or-nothing (D13)
-                        if not refused:
-                            s.cap = cap1 * 2 if second_grows else cap1
-                            s.items.insert(pos, v)
-                            s.items.insert(pos, w)
-                            pos += 1
-                        ops.append(f"zit_add {v} {w}{fl}")
+                    do_add()
                 else:
-                    v, w = pick_value(rng), pick_value(rng)
-                    s.items[pos - 1] = w
-                    ops.append(f"zit_replace {v} {w}" + (" noout=1" if rng.random() < 0.2 else ""))
+                    do_replace()
             if rng.random() < 0.05:
                 break
 
@@ -595,6 +695,58 @@ class DequeGen:
                             out.append(pre + head + ["zit_replace 77 88"] + tail + ["destroy"])
                             if k < s and not d3_excluded(k, s) and not d3_excluded(k, s + 1):
                                 out.append(pre + head + ["zit_add 77 88", "zit_index"] + tail + ["get_at 0", "destroy"])
+        if focus in ("iter", "reject", "all"):
+            # ROUND12 C: the deque is changed by DIRECT calls behind a cursor that has yielded k elements; then one
+            # cursor call (rejected wherever the cursor now stands outside the deque), index, next
+            mcaps = (2, 4) if tier == "quick" else (2, 4, 8)
+            for cap, f, s in self.layouts(mcaps):
+                if s == 0:
+                    continue
+                pre = self.layout(cap, f, s)
+                for k in range(1, s + 1):
+                    head = ["it_new"] + ["it_next"] * k
+                    directs = [(["remove_last"] * j, s - j) for j in range(1, s + 1)]
+                    directs += [(["remove_first"] * j, s - j) for j in range(1, s + 1)]
+                    directs += [(["remove_all"], 0), (["remove_at 0"], s - 1), (["add_last 61"], s + 1),
+                                (["add_first 62", "add_first 63"], s + 2), (["remove_last", "trim"], s - 1)]
+                    for dops, n2 in directs:
+                        for fin in ("it_add 77", "it_remove", "it_replace 55", "it_next"):
+                            if fin == "it_add 77" and k < n2 and d3_excluded(k, n2):
+                                continue                 # KNOWN FINDING D3
+                            if focus == "reject" and not (k > n2 or (fin != "it_add 77" and k - 1 >= n2)):
+                                if (k + len(dops) + s) % 3:
+                                    continue             # reject: mostly the calls that must be rejected
+                            out.append(pre + head + dops + [fin, "it_index", "it_next", "it_next", "get_at 0", "destroy"])
+                    # the same with a zip cursor over (slot 0, slot 1): slot 0 shortened behind it
+                    if cap <= 4:
+                        pre2 = self.layout(cap, 0, s, slot=1, base=50)
+                        for j in range(1, s + 1):
+                            n2 = s - j
+                            for fin in ("zit_add 77 88", "zit_remove", "zit_replace 55 66", "zit_next"):
+                                if fin.startswith("zit_add") and k < n2 and (d3_excluded(k, n2) or d3_excluded(k, s)):
+                                    continue
+                                out.append(pre + pre2 + ["zit_new o=0 o2=1"] + ["zit_next"] * k + ["remove_last"] * j +
+                                           [fin, "zit_index", "zit_next", "get_at 0", "destroy"])
+        if focus in ("iter", "growth", "all"):
+            # cursor insertion BEFORE the first next (index 0) in every layout; for the aliased zip on capacity 1 this
+            # is the only position at which both add_at calls grow the buffer
+            for cap, f, s in self.layouts((1, 2, 4)):
+                pre = self.layout(cap, f, s)
+                out.append(pre + ["it_new", "it_add 77", "it_index", "it_next", "it_next", "get_at 0", "destroy"])
+                if s >= 1:
+                    out.append(pre + ["zit_new o=0 o2=0", "zit_add 77 88", "zit_index", "zit_next", "zit_next", "get_at 0", "destroy"])
+        if focus == "all":
+            # ROUND12 C: aliased zip x capacity in {1, 2} x every refusal point (fail=3 never fires: two calls at most)
+            for cap in (1, 2):
+                for f in range(cap):
+                    for s in range(1, cap + 1):
+                        for k in range(0, s):
+                            if d3_excluded(k, s) or d3_excluded(k, s + 1):
+                                continue
+                            for fl in (1, 2, 3):
+                                out.append(self.layout(cap, f, s) + ["zit_new o=0 o2=0"] + ["zit_next"] * k +
+                                           [f"zit_add 77 88 fail={fl}", "zit_index", "zit_next", "zit_next", "get_at 0",
+                                            "add_last 5", "destroy"])
         if focus in ("derived", "all"):
             dcaps = (1, 2, 4) if tier == "quick" else (1, 2, 4, 8)
             for cap, f, s in self.layouts(dcaps):
@@ -637,10 +789,222 @@ class DequeGen:
                                ["zit_add 7 8", "zit_next", "get_at 0", "add_last 5", "destroy"])
                 if cap >= 4:      # same deque on both sides, full: the only allocation is zip_iter_add's own growth test
                     out.append(pre + ["zit_new o=0 o2=0"] + ["zit_next"] * (cap // 2 + 1) + ["zit_add 7 8", "zit_next", "get_at 0", "destroy"])
+                # aliased zip on capacity 1 / 2, insertion at index 0 (before the first next) and after the first
+                # yield: on capacity 1 with one element BOTH add_at calls grow (the runner refuses the 1st, the 2nd)
+                if cap <= 2:
+                    for s in range(1, cap + 1):
+                        for k in range(0, s):
+                            if not (d3_excluded(k, s) or d3_excluded(k, s + 1)):
+                                out.append(self.layout(cap, f, s) + ["zit_new o=0 o2=0"] + ["zit_next"] * k +
+                                           ["zit_add 7 8", "zit_index", "zit_next", "get_at 0", "add_last 5", "destroy"])
+                out.append(pre + ["it_new", "it_add 9", "it_next", "get_at 0", "destroy"])
                 pre2 = self.layout(cap, 0, cap, slot=1, base=50)
                 if cap >= 2:
                     out.append(pre + pre2 + ["zit_new o=0 o2=1", "zit_next"] + ["zit_next"] * (cap // 2 + 1) + ["zit_add 7 8", "zit_next", "destroy"])
         return out
+
+    # ------------------------------------------------------------------ scale (ROUND12 A)
+    SCALE_CAPS = [1, 7, 8, 9, 255, 256, 257, 300, 513, 1000, 1023, 1024, 1025, 4100]
+
+    def scale(self, rng, tier):
+        """few LONG histories: constructor capacities around powers of two up to 4100 (upper_pow_two beyond 8 bits),
+        600-1500 elements, then several hundred operations at the front, the middle and the back, iterator sweeps
+        with removals / insertions (incl. over an EXACTLY FULL ring, insertion in the back half, walk continued
+        beyond the old capacity), cursor sessions interleaved with direct calls, reverse / trim / copies / filter.
+        Sessions are `obs=sparse phys=quiet` (buffer checksum per op, full dump on `observe` every ~50 ops).
+        The models' memmove is quadratic, so operations that shift half a buffer are budgeted by capacity."""
+        nh = 3 if tier == "quick" else 24
+        caps = [rng.choice([257, 513]), 4100, rng.choice([c for c in self.SCALE_CAPS if c not in (257, 513, 4100)])] if tier == "quick" else \
+            [self.SCALE_CAPS[i % len(self.SCALE_CAPS)] for i in range(nh)]
+        return [self.scale_history(rng, cc, i) for i, cc in enumerate(caps)]
+
+    def scale_history(self, rng, cc, variant=0):
+        sim = Sim(cc)
+        ops = [f"new cap={cc} obs=sparse phys=quiet"]
+        since = [0]
+
+        def tick(k=1):
+            since[0] += k
+            if since[0] >= 50:
+                ops.append("observe")
+                since[0] = 0
+
+        big = upper_pow_two(cc) >= 4096
+        # -- fill: distinct small values (a slot that aliases another one shows at once), both ends
+        target = rng.randint(1100, 1300) if big else rng.choice([rng.randint(600, 1500), 1024, 2048 if cc > 8 else 1024])
+        p_first = rng.choice([0.0, 0.25, 0.5])
+        v = 0
+        while len(sim.items) < target:
+            v += 1
+            x = v if rng.random() < 0.97 else pick_value(rng)
+            self.core_op_fixed(sim, ops, "add_first" if rng.random() < p_first else rng.choice(["add_last", "add_last", "add"]), x)
+            tick()
+        ops.append("observe")
+        # -- exactly full ring? then a cursor walk with an insertion in the back half, continued past the old capacity
+        if len(sim.items) == sim.cap:
+            self.full_ring_walk(rng, sim, ops, slot=0, long=True)
+            ops.append("observe")
+        # -- several hundred operations at the front, the middle and the back
+        big = sim.cap >= 4096
+        budget = 8 if sim.cap >= 8192 else 30 if big else 150     # calls that memmove about half the buffer
+        p_scan = 0.925 if big else 0.96        # linear scans (index_of / contains) cost size * capacity in the model
+        for _ in range(rng.randint(300, 450)):
+            n = len(sim.items)
+            r = rng.random()
+            if r < 0.22 and budget > 0 and n > 3:
+                budget -= 1
+                i = rng.choice([0, 1, n // 3, n // 2, n - 2, n - 1, rng.randrange(n)])
+                self.core_op_fixed(sim, ops, "remove_at", i)
+            elif r < 0.40 and budget > 0 and n > 3:
+                budget -= 1
+                cand = [i for i in (0, n // 2, n // 2 + 1, 2 * n // 3, n - 1, rng.randrange(n // 2, n)) if not d3_excluded(i, n)]
+                v += 1
+                self.core_op_fixed(sim, ops, "add_at", v, rng.choice(cand))
+            elif r < 0.55:
+                ops.append(f"get_at {rng.choice([0, 1, n // 3, n // 2, max(n, 1) - 1, n, n + 1, rng.randrange(max(n, 1))])}")
+            elif r < 0.60:
+                ops.append(rng.choice(["get_first", "get_last", "size"]))
+            elif r < 0.72:
+                self.core_op_fixed(sim, ops, rng.choice(["remove_first", "remove_last"]))
+            elif r < 0.86:
+                v += 1
+                self.core_op_fixed(sim, ops, rng.choice(["add_first", "add_last"]), v)
+            elif r < 0.92 and n:
+                v += 1
+                self.core_op_fixed(sim, ops, "replace_at", v, rng.choice([0, n // 3, n - 1]))
+            elif r < p_scan and n:
+                x = rng.choice([sim.items[0], sim.items[n // 3], sim.items[-1], 10**9])
+                ops.append(f"{rng.choice(['index_of', 'contains'])} {x}")
+            else:
+                x = rng.choice([sim.items[n // 2], 10**9]) if n else 5
+                if x in sim.items and budget > 0:
+                    budget -= 1
+                    sim.items.remove(x)
+                    ops.append(f"remove {x}")
+            tick()
+        ops.append("observe")
+        # -- cursor sweep over everything: a removal / replacement every few dozen yields, an insertion in the back half
+        ops.append("it_new")
+        pos, k = 0, 0
+        gap = rng.randint(8, 40)
+        while pos < len(sim.items):
+            ops.append("it_next")
+            pos += 1
+            k += 1
+            if k % gap == 0:
+                c = rng.random()
+                n = len(sim.items)
+                if c < 0.4 and budget > 0:
+                    budget -= 1
+                    del sim.items[pos - 1]
+                    pos -= 1
+                    ops.append("it_remove")
+                elif c < 0.6 and budget > 0 and not d3_excluded(pos, n):
+                    budget -= 1
+                    v += 1
+                    if sim.grows():
+                        sim.grow()
+                    sim.items.insert(pos, v)
+                    pos += 1
+                    ops += [f"it_add {v}", "it_index"]
+                else:
+                    v += 1
+                    sim.items[pos - 1] = v
+                    ops.append(f"it_replace {v}")
+                if rng.random() < 0.3:       # ROUND12 C: direct calls behind the cursor's back
+                    self.core_op_fixed(sim, ops, rng.choice(["remove_last", "remove_first", "add_last"]), v + 7000)
+                    v += 1
+            tick()
+        ops += ["it_next", "observe"]
+        # -- shorten the deque far behind the cursor: every cursor call is rejected now
+        for _ in range(rng.randint(2, 40)):
+            self.core_op_fixed(sim, ops, rng.choice(["remove_last", "remove_first"]))
+        ops += ["it_add 5", "it_remove", "it_replace 6", "it_index", "it_next", "observe"]
+        # -- whole-container operations at this size, then the same again after a trim
+        ops.append("reverse")
+        sim.items.reverse()
+        ops += ["get_at 0", f"get_at {len(sim.items) - 1}"]
+        ops.append("mk_copy_shallow to=1")
+        cp = sim.clone()
+        for _ in range(20):
+            v += 1
+            self.core_op_fixed(cp, ops, rng.choice(["add_first", "add_last", "remove_first"]), v, slot=1)
+        ops += ["observe", "mk_filter to=2", "observe", "drop o=2", "mk_copy_deep to=2", "remove_first o=2", "observe",
+                "drop o=2", "drop o=1"]
+        for _ in range(rng.randint(0, 300)):
+            self.core_op_fixed(sim, ops, rng.choice(["remove_first", "remove_last"]))
+            tick()
+        ops.append("trim")
+        sim.trim()
+        for _ in range(rng.randint(20, 60)):
+            v += 1
+            self.core_op_fixed(sim, ops, rng.choice(["add_first", "add_last", "add_last", "remove_first"]), v)
+            tick()
+        ops.append("observe")
+        # -- a second, small ring: exactly full and wrapped, cursor insertion in the back half; aliased zip on capacity 1
+        c2 = rng.choice([2, 4, 8, 16, 64])
+        sim2 = Sim(c2)
+        ops.append(f"new cap={c2} o=1")
+        for i in range(c2):
+            self.core_op_fixed(sim2, ops, "add_first" if i < c2 // 3 else "add_last", 500 + i, slot=1)
+        self.full_ring_walk(rng, sim2, ops, slot=1)
+        ops += ["observe", "drop o=1", "new cap=1 o=1", "add_last 9 o=1", "zit_new o=1 o2=1", "zit_add 7 8", "zit_next",
+                "zit_next", "zit_next", "observe", "destroy"]
+        return ops
+
+    @staticmethod
+    def core_op_fixed(sim, ops, op, a=None, b=None, slot=0):
+        """one deterministic call, simulation kept in step (no D3 check: callers choose the index)"""
+        sfx = f" o={slot}" if slot else ""
+        if op in ("add", "add_last", "add_first"):
+            if sim.grows():
+                sim.grow()
+            sim.items.insert(0, a) if op == "add_first" else sim.items.append(a)
+            ops.append(f"{op} {a}{sfx}")
+        elif op == "add_at":
+            assert not d3_excluded(b, len(sim.items))
+            if b < len(sim.items):
+                if sim.grows():
+                    sim.grow()
+                sim.items.insert(b, a)
+            ops.append(f"add_at {a} {b}{sfx}")
+        elif op == "remove_at":
+            if a < len(sim.items):
+                del sim.items[a]
+            ops.append(f"remove_at {a}{sfx}")
+        elif op == "replace_at":
+            if b < len(sim.items):
+                sim.items[b] = a
+            ops.append(f"replace_at {a} {b}{sfx}")
+        elif op == "remove_first":
+            if sim.items:
+                del sim.items[0]
+            ops.append(f"remove_first{sfx}")
+        elif op == "remove_last":
+            if sim.items:
+                del sim.items[-1]
+            ops.append(f"remove_last{sfx}")
+        else:
+            raise ValueError(op)
+
+    @staticmethod
+    def full_ring_walk(rng, sim, ops, slot=0, long=False):
+        """cursor over an EXACTLY FULL ring: it_add at a position in the back half that is not the end (the front
+        half is finding D3), which doubles the buffer under the cursor; then the walk goes on beyond the old capacity"""
+        sfx = f" o={slot}" if slot else ""
+        n = len(sim.items)
+        assert n == sim.cap
+        if n < 2:
+            return
+        k = rng.randrange(max(n // 2, 1), n)          # 1 <= k < n and not d3_excluded(k, n)
+        assert not d3_excluded(k, n)
+        ops.append(f"it_new{sfx}")
+        ops += ["it_next"] * k
+        sim.grow()
+        sim.items.insert(k, 4242)
+        ops += ["it_add 4242", "it_index"]
+        rest = n + 1 - (k + 1)
+        ops += ["it_next", "it_index"] * min(rest, 3) + ["it_next"] * max(rest - 3, 0) + ["it_next", "it_next"]
 
     # ------------------------------------------------------------------ random histories
     def random(self, rng, n, tier, focus=None):
@@ -677,7 +1041,9 @@ class DequeGen:
                 i += 1
                 r = rng.random()
                 s0 = sims[0]
-                p_iter = {"iter": 0.12, "all": 0.05}.get(focus, 0.0)
+                # reject: cursor calls at positions outside the deque (after direct removals) are rejected calls (C16)
+                p_iter = {"iter": 0.12, "all": 0.05, "reject": 0.05}.get(focus, 0.0)
+                mixed = rng.random() < (0.8 if focus == "reject" else 0.5)
                 p_der = {"derived": 0.15, "all": 0.05, "fault": 0.05}.get(focus, 0.0)
                 if focus == "growth" and r < 0.003:
                     self.zip_self_program(rng, s0, ops, slot=0)
@@ -685,7 +1051,7 @@ class DequeGen:
                     self.core_op(rng, s0, ops, only=rng.choice(["add_last", "add_first", "add_last", "add"]))
                 elif r < p_iter:
                     if rng.random() < 0.65:
-                        self.iter_program(rng, s0, ops, fault=fault, reject=reject, allow_fail=allow_fail)
+                        self.iter_program(rng, s0, ops, fault=fault, reject=reject, allow_fail=allow_fail, mixed=mixed)
                     else:
                         if sims[1] is None:
                             c2 = rng.choice([1, 2, 3, 4, 8])
@@ -694,10 +1060,10 @@ class DequeGen:
                         for _ in range(rng.randint(0, 9)):
                             self.core_op(rng, sims[1], ops, slot=1, only=rng.choice(["add_last", "add_first", "remove_first", "add_last"]))
                         if rng.random() < 0.25:      # the same deque on both sides
-                            self.zip_self_program(rng, s0, ops, slot=0, fault=fault, reject=reject, allow_fail=allow_fail)
+                            self.zip_self_program(rng, s0, ops, slot=0, fault=fault, reject=reject, allow_fail=allow_fail, mixed=mixed)
                         else:
                             a, b = rng.choice([(0, 1), (1, 0)])
-                            self.zip_program(rng, sims[a], sims[b], ops, a=a, b=b, fault=fault, reject=reject, allow_fail=allow_fail)
+                            self.zip_program(rng, sims[a], sims[b], ops, a=a, b=b, fault=fault, reject=reject, allow_fail=allow_fail, mixed=mixed)
                 elif r < p_iter + p_der:
                     self.derived_program(rng, sims, ops, fault=fault, reject=reject, allow_fail=allow_fail)
                 elif focus in ("derived", "all") and r < p_iter + p_der + 0.015:
